@@ -83,7 +83,20 @@ def strict_same(a, b):
 
 
 def diff(a, b):
-    """'same' | 'excused' (differs only by the property's caveats) | 'different'."""
+    """'same' | 'excused' (differs only by the property's caveats, or is an equal instance of a subclass: the same
+    kind under isinstance typing) | 'different'."""
+    if type(a) is not type(b) and isinstance(b, type(a)) and not isinstance(a, bool):
+        try:
+            plain = type(a)(b) if isinstance(a, (list, dict, int, float, str, bytes)) else None
+        except Exception:
+            plain = None
+        if plain is not None and type(plain) is type(a):
+            d = diff(a, plain)
+            return "excused" if d == "same" else d
+        try:
+            return "excused" if a == b else "different"
+        except Exception:
+            return "different"
     if isinstance(a, bool) or isinstance(b, bool):
         if isinstance(a, int) and isinstance(b, int) and not isinstance(a, float) and a == b:
             return "same" if type(a) is type(b) else "excused"
